@@ -258,6 +258,31 @@ func imageHostiles(r *mon.Run, img []byte, baseName string, idx int) []hostile {
 		binary.LittleEndian.PutUint32(m2[s.HdrOff+16:], uint32(len(img)-im.SizeOfHeaders))
 		out = append(out, hostile{m2, "section-covering-file", fmt.Sprint(i), "", baseName})
 	}
+	// sections overlapping each other while everything stays in front of the certificate table
+	end := len(img)
+	if im.CertSize > 0 && int(im.CertVA) < len(img) {
+		end = int(im.CertVA)
+	}
+	for i, s := range im.Sections {
+		if i > 3 || s.PtrRaw == 0 || int(s.PtrRaw) >= end {
+			continue
+		}
+		m := append([]byte(nil), img...)
+		binary.LittleEndian.PutUint32(m[s.HdrOff+16:], uint32(end)-s.PtrRaw)
+		out = append(out, hostile{m, "section-grown-to-certtable", fmt.Sprint(i), "", baseName})
+		for j, o := range im.Sections {
+			if j == i || o.SizeRaw == 0 || j > 4 {
+				continue
+			}
+			m2 := append([]byte(nil), img...)
+			binary.LittleEndian.PutUint32(m2[s.HdrOff+20:], o.PtrRaw)
+			out = append(out, hostile{m2, "section-moved-onto-another", fmt.Sprintf("%d->%d", i, j), "", baseName})
+			m3 := append([]byte(nil), img...)
+			binary.LittleEndian.PutUint32(m3[s.HdrOff+20:], o.PtrRaw)
+			binary.LittleEndian.PutUint32(m3[s.HdrOff+16:], uint32(end)-o.PtrRaw)
+			out = append(out, hostile{m3, "section-moved-and-grown", fmt.Sprintf("%d->%d", i, j), "", baseName})
+		}
+	}
 	// overlapping sections: second section points into the first
 	if len(im.Sections) >= 2 {
 		m := append([]byte(nil), img...)
@@ -382,6 +407,9 @@ func judgeOutcome(r *mon.Run, prop string, entry string, h hostile, rs WResult) 
 	case "fatal":
 		r.Violation(prop+"|"+entry+"|runtime-fatal", fmt.Sprintf("%s aborted the runtime on a %d-byte input: %s", entry, len(h.in), rs.Panic), replay)
 		return
+	case "timeout-unconfirmed":
+		r.Count("timeouts_in_batch_not_confirmed_alone", 1)
+		return
 	case "timeout":
 		r.Violation(prop+"|"+entry+"|no-progress", fmt.Sprintf("%s did not finish on a %d-byte input within the watchdog", entry, len(h.in)), replay)
 		return
@@ -390,6 +418,9 @@ func judgeOutcome(r *mon.Run, prop string, entry string, h hostile, rs WResult) 
 		r.Distinct(key)
 	}
 	limC := int64(cpuBaseUs + cpuPerByteUs*len(h.in))
+	if strings.HasSuffix(entry, "-concurrent") {
+		return // a repetition workload (thousands of calls): only its outcome is judged
+	}
 	for _, st := range rs.Stages {
 		limA := uint64(allocBase + allocPerByte*len(h.in))
 		if st.Name == "Parse" {
